@@ -462,7 +462,7 @@ FNew(t, h, kind) ==
   /\ futs' = A!Put(futs, f, [h |-> h, kind |-> kind, done |-> FALSE, polls |-> 0])
   /\ Bump(t)
   /\ Begin(t, <<>>, Ev(t, "fnew") @@ [f |-> f, h |-> h, kind |-> kind], Rt(t, "fnew"))
-  /\ UNCHANGED <<spans, lsets, stack, hs, natt>>
+  /\ UNCHANGED <<spans, lsets, pushed, stack, hs, natt>>
 
 \* what the scripted inner does on span line ln (has = there is a line); n = fresh name
 \* returns <<line', events>>
@@ -514,7 +514,7 @@ FPoll(t, f, inner, fin) ==
   /\ nid' = [nid EXCEPT ![t] = @ + 2]
   /\ hist' = Append(hist, call)
   /\ Advance(t, cmds, gh, Rt(t, "fpoll") @@ call)
-  /\ UNCHANGED <<lsets, hs, natt>>
+  /\ UNCHANGED <<lsets, pushed, hs, natt>>
 
 \* the adapter is dropped: a span it still holds finishes
 FDrop(t, f) ==
@@ -526,7 +526,7 @@ FDrop(t, f) ==
   /\ futs' = [futs EXCEPT ![f].done = TRUE, ![f].polls = MaxPolls]
   /\ spans' = IF fu.kind # "eop" /\ Usable(h) THEN [spans EXCEPT ![h].st = "done"] ELSE spans
   /\ Begin(t, cmds, Ev(t, "fdrop") @@ [f |-> f], Rt(t, "fdrop"))
-  /\ UNCHANGED <<lsets, stack, hs, nid, natt>>
+  /\ UNCHANGED <<lsets, pushed, stack, hs, nid, natt>>
 
 \* thread exit: the sender's destructor flushes the overflow list, then the producer half goes away
 Exit(t) ==
